@@ -1,0 +1,98 @@
+//go:build verif
+
+package m3
+
+// Contracts for the deductive verifier in /verif (comment-only).
+
+//@ extern interface tally.CachedCount
+//@ extern interface tally.CachedGauge
+//@ extern interface tally.CachedTimer
+//@ extern interface tally.CachedHistogram
+//@ extern interface tally.CachedHistogramBucket
+
+//@ extern interface tally.BucketPair
+//@ pure method tally.BucketPair.UpperBoundValue
+//@ assume tally.CachedHistogram.ValueBucket ensures result != nil
+
+// ---------------------------------------------------------------------------
+// C14: the shutdown handshake.
+//
+// Ghost state: inside = callers that loaded done == false and have not left;
+// other = callers counted in pending that are before the done check or past it;
+// stage = progress of the unique Close winner (0 nobody, 1 won and draining,
+// 2 saw pending == 0, 3 donech closed, 4 metCh closed).  The token `winner`
+// is taken by the successful CAS on done; stage is owned by its holder.
+
+//@ protocol m3Shutdown
+//@   property C14
+//@   self r *reporter
+//@   shared done, pending, metCh, donech
+//@   ghost inside int, other int, stage int
+//@   local myIn int, myOther int
+//@   counter inside by myIn
+//@   counter other by myOther
+//@   token winner owns stage acquire cas done when !before && after
+//@   threads (*reporter).reportCopyMetric, (*reporter).Flush, (*reporter).Close
+//@   inv @pending_counts_callers r.pending == inside + other && inside >= 0 && other >= 0
+//@   inv @stage_range 0 <= stage && stage <= 4
+//@   inv @done_iff_won r.done <==> stage >= 1
+//@   inv @winner_iff_done winner_held <==> stage >= 1
+//@   inv @drained_means_nobody_inside stage >= 2 ==> inside == 0
+//@   inv @queue_closed_last metCh_closed <==> stage >= 4
+//@   inv @donech_closed_after_drain donech_closed <==> stage >= 3
+//@   assume @fewer_than_2_63_callers r.pending < 9223372036854775807
+//@   rely @done_is_set_once old(r.done) ==> r.done
+//@   on add pending: other = (after == before + 1 ? other + 1 : other - myOther); inside = (after == before + 1 ? inside : inside - myIn); myOther = (after == before + 1 ? myOther + 1 : 0); myIn = (after == before + 1 ? myIn : 0)
+//@   on load done in (*reporter).reportCopyMetric, (*reporter).Flush: inside = (after ? inside : inside + myOther); myIn = (after ? myIn : myIn + myOther); other = (after ? other : other - myOther); myOther = (after ? myOther : 0)
+//@   on cas done: stage = (!before && after ? 1 : stage)
+//@   on load pending in (*reporter).Close: stage = (after == 0 && stage == 1 ? 2 : stage)
+//@   require close donech: @only_after_drain my_winner && stage == 2
+//@   on close donech: stage = 3
+//@   require close metCh: @only_after_donech my_winner && stage == 3
+//@   on close metCh: stage = 4
+//@   loop (*reporter).Close 1 invariant @draining my_winner && stage == 1
+//@   init NewReporter
+
+//@ pred repWF(r *reporter) { r != nil && r.metCh != nil && r.donech != nil && r.tagCache != nil && r.tagCache.entries != nil && r.batchSizeHistogram != nil && r.numBatchesCounter != nil && r.numMetricsCounter != nil && r.numWriteErrorsCounter != nil && r.numTagCacheCounter != nil && (forall i int :: 0 <= i && i < len(r.buckets) ==> r.buckets[i] != nil && is(r.buckets[i], tally.bucketPair)) }
+//@ pred quiet() { len(calls) == old(len(calls)) }
+//@ pred one_more() { len(calls) == old(len(calls)) + 1 && (forall j int :: 0 <= j && j < old(len(calls)) ==> calls[j] == old(calls[j])) }
+
+//@ func (*reporter).reportInternalMetrics
+//@   property C14
+//@   emits
+//@   requires repWF(r)
+//@   modifies r.numBatches, r.numMetrics, r.numWriteErrors
+//@   ensures @shutdown_state_untouched r.done == old(r.done) && r.pending == old(r.pending)
+
+//@ func (*reporter).reportCopyMetric
+//@   property C14, C13
+//@   emits
+//@   requires repWF(r)
+//@   modifies r.pending
+//@   case closed: requires r.done && r.pending < 9223372036854775807
+//@     ensures @noop_after_close quiet() && r.pending == old(r.pending)
+//@   case open: requires !r.done && r.pending < 9223372036854775807 && !closed(r.metCh)
+//@     ensures @in_flight_count_restored r.pending == old(r.pending) && r.done == old(r.done)
+//@     ensures @at_most_one_enqueue quiet() || (one_more() && calls[old(len(calls))] == evn("chan.send:14", r.metCh, m.Name, m.Value, r.now, m.Tags, size, true, bucket, bucketID))
+
+//@ func (*reporter).Flush
+//@   property C14
+//@   emits
+//@   requires repWF(r)
+//@   modifies r.pending, r.numBatches, r.numMetrics, r.numWriteErrors
+//@   case closed: requires r.done && r.pending < 9223372036854775807
+//@     ensures @noop_after_close quiet() && r.pending == old(r.pending)
+//@   case open: requires !r.done && r.pending < 9223372036854775807 && !closed(r.metCh)
+//@     ensures @in_flight_count_restored r.pending == old(r.pending) && r.done == old(r.done)
+//@     ensures @marker_enqueued_last len(calls) > old(len(calls)) && calls[len(calls)-1] == evn("chan.send:14", r.metCh, "", 0, 0, 0.0, 0, 0, 0, 0, 0, 0, false, "", "")
+
+//@ func (*reporter).Close
+//@   property C14, C13
+//@   emits
+//@   requires repWF(r)
+//@   modifies r.done
+//@   case again: requires r.done
+//@     ensures @second_close_is_an_error_not_a_panic result != nil && quiet() && r.done
+//@   case first: requires !r.done && r.pending == 0 && !closed(r.donech) && !closed(r.metCh)
+//@     ensures @closes_both_channels_then_joins result == nil && r.done && len(calls) == old(len(calls)) + 3 && calls[old(len(calls))] == evn("chan.close", r.donech) && calls[old(len(calls))+1] == evn("chan.close", r.metCh) && calls[old(len(calls))+2] == evn("wg.Wait:.wg", r)
+//@     loop 1 invariant @nothing_yet r.pending == 0 && r.done && quiet() && !closed(r.donech) && !closed(r.metCh)
